@@ -15,6 +15,8 @@
     distances is not modelled (the heaps are sorted lists, the sorts are stable
     insertion sorts); the correspondence run compares graphs only where no two
     compared distances are equal.
+  * `searchLayer` is the code since fix f6a780e (soft-deleted vertices are walked
+    through, never reported; ef clamped to ≥ 1); `searchLayerOld` is the code before it.
   * `registerFirst` is the statement order inside `HNSWIndex.Add`:
       true  = `idx.nodes[id] = node` BEFORE `idx.insertNode(node)`  (the code since fix fb5d06f)
       false = the order before that fix (kept for the theorem about the old defect).
@@ -129,14 +131,15 @@ def admits (lt : S → S → Bool) (ef : Nat) (rs : List (Hit S)) (d : S) : Exce
   | [] => .error .panic
   | w :: _ => .ok (lt d w.score)
 
-/-- the `for _, neighborID := range node.Edges[layer]` loop of `searchLayer` -/
+/-- the `for _, neighborID := range node.Edges[layer]` loop of `searchLayer`
+    (since fix f6a780e: a soft-deleted neighbour is walked through — pushed to
+    `candidates` — but never reported — not pushed to `result`) -/
 def scanNbrs (s : State V) (q : V) (ef : Nat) :
     List Id → List (Hit S) × List (Hit S) × IdMap Unit →
     Except Fault (List (Hit S) × List (Hit S) × IdMap Unit)
   | [], st => .ok st
   | nb :: rest, (cs, rs, vis) =>
-    if isDeleted s nb then scanNbrs s q ef rest (cs, rs, vis)
-    else if vis.contains nb then scanNbrs s q ef rest (cs, rs, vis)
+    if vis.contains nb then scanNbrs s q ef rest (cs, rs, vis)
     else
       let vis := vis.set nb ()
       match node! s nb with
@@ -148,9 +151,11 @@ def scanNbrs (s : State V) (q : V) (ef : Nat) :
         | .ok false => scanNbrs s q ef rest (cs, rs, vis)
         | .ok true =>
           let cs := insAsc m.sc.lt ⟨nb, d⟩ cs
-          let rs := insDesc m.sc.lt ⟨nb, d⟩ rs
-          let rs := if rs.length > ef then rs.tail else rs     -- heap.Pop(result)
-          scanNbrs s q ef rest (cs, rs, vis)
+          if isDeleted s nb then scanNbrs s q ef rest (cs, rs, vis)
+          else
+            let rs := insDesc m.sc.lt ⟨nb, d⟩ rs
+            let rs := if rs.length > ef then rs.tail else rs     -- heap.Pop(result)
+            scanNbrs s q ef rest (cs, rs, vis)
 
 /-- `result.Len() >= ef && current.distance > (*result)[0].distance` -/
 def stops (lt : S → S → Bool) (ef : Nat) (rs : List (Hit S)) (d : S) : Except Fault Bool :=
@@ -180,17 +185,74 @@ def searchLoop (s : State V) (q : V) (ef layer : Nat) :
           | .error e => .error e
           | .ok (cs', rs', vis') => searchLoop s q ef layer fuel cs' rs' vis'
 
-/-- `HNSWIndex.searchLayer`: ascending by distance.
-    QUIRK: a soft-deleted entry point is marked visited but not seeded, so the
-    result is empty. -/
+/-- `HNSWIndex.searchLayer`: ascending by distance.  `ef` is clamped to at least 1; the
+    start vertex is always put on the candidate heap, on the result heap only when it is
+    not soft-deleted (fix f6a780e). -/
 def searchLayer (s : State V) (q : V) (ep : Id) (ef layer : Nat) : Except Fault (List (Hit S)) :=
+  let ef := Nat.max ef 1
+  match node! s ep with
+  | .error e => .error e
+  | .ok n =>
+    let d := m.dist q n.vec
+    let rs : List (Hit S) := if isDeleted s ep then [] else [⟨ep, d⟩]
+    let vis : IdMap Unit := (IdMap.empty).set ep ()
+    match searchLoop m s q ef layer (s.nodes.bound + 1) [⟨ep, d⟩] rs vis with
+    | .error e => .error e
+    | .ok rs => .ok rs.reverse
+
+/-! ### model variant: searchLayer BEFORE fix f6a780e (defect D2), kept only for the
+    theorem that says why it was a defect: soft-deleted vertices were neither seeded nor
+    traversed -/
+
+def scanNbrsOld (s : State V) (q : V) (ef : Nat) :
+    List Id → List (Hit S) × List (Hit S) × IdMap Unit →
+    Except Fault (List (Hit S) × List (Hit S) × IdMap Unit)
+  | [], st => .ok st
+  | nb :: rest, (cs, rs, vis) =>
+    if isDeleted s nb then scanNbrsOld s q ef rest (cs, rs, vis)
+    else if vis.contains nb then scanNbrsOld s q ef rest (cs, rs, vis)
+    else
+      let vis := vis.set nb ()
+      match node! s nb with
+      | .error e => .error e
+      | .ok n =>
+        let d := m.dist q n.vec
+        match admits m.sc.lt ef rs d with
+        | .error e => .error e
+        | .ok false => scanNbrsOld s q ef rest (cs, rs, vis)
+        | .ok true =>
+          let cs := insAsc m.sc.lt ⟨nb, d⟩ cs
+          let rs := insDesc m.sc.lt ⟨nb, d⟩ rs
+          let rs := if rs.length > ef then rs.tail else rs
+          scanNbrsOld s q ef rest (cs, rs, vis)
+
+def searchLoopOld (s : State V) (q : V) (ef layer : Nat) :
+    Nat → List (Hit S) → List (Hit S) → IdMap Unit → Except Fault (List (Hit S))
+  | _, [], rs, _ => .ok rs
+  | 0, _ :: _, _, _ => .error .fuel
+  | fuel + 1, c :: cs, rs, vis =>
+    match stops m.sc.lt ef rs c.score with
+    | .error e => .error e
+    | .ok true => .ok rs
+    | .ok false =>
+      match node! s c.id with
+      | .error e => .error e
+      | .ok n =>
+        match n.edges[layer]? with
+        | none => searchLoopOld s q ef layer fuel cs rs vis
+        | some nbs =>
+          match scanNbrsOld m s q ef nbs (cs, rs, vis) with
+          | .error e => .error e
+          | .ok (cs', rs', vis') => searchLoopOld s q ef layer fuel cs' rs' vis'
+
+def searchLayerOld (s : State V) (q : V) (ep : Id) (ef layer : Nat) : Except Fault (List (Hit S)) :=
   let vis : IdMap Unit := (IdMap.empty).set ep ()
   if isDeleted s ep then .ok [] else
   match node! s ep with
   | .error e => .error e
   | .ok n =>
     let d := m.dist q n.vec
-    match searchLoop m s q ef layer (s.nodes.bound + 1) [⟨ep, d⟩] [⟨ep, d⟩] vis with
+    match searchLoopOld m s q ef layer (s.nodes.bound + 1) [⟨ep, d⟩] [⟨ep, d⟩] vis with
     | .error e => .error e
     | .ok rs => .ok rs.reverse
 
@@ -369,28 +431,42 @@ def flushTo (s : State V) (e : Id) : State V :=
     else if live.isEmpty then -1 else (maxNat (live.map (levelOf s)) : Nat)
   { s with nodes := nodes, deleted := .empty, entry := e, maxLevel := maxLevel }
 
+/-- does this `Add` run `flushLocked` first?  (`id` still soft-deleted: fix e29df80; the
+    entry point soft-deleted: fix f98dc7f).  At most one of the two flushes does anything:
+    after the first one no tombstone is left. -/
+def addFlushes (s : State V) (id : Id) : Bool :=
+  (id != 0 && s.deleted.contains id) || s.deleted.contains s.entry
+
+/-- the part of `HNSWIndex.Add` after the tombstone purges: maxLevel update, the first
+    vertex of an empty index, registration and `insertNode` (`v'` = preprocessed vector) -/
+def addLinked (rf : Bool) (s : State V) (id : Id) (v' : V) (level : Nat) : Except Fault (State V) :=
+  let s := if (level : Int) > s.maxLevel then { s with maxLevel := level } else s
+  let nx := Node.new v' level
+  if s.entry == 0 && s.nodes.count == 0 then
+    .ok { s with entry := id, nodes := s.nodes.set id nx }
+  else
+    let s1 := if rf then { s with nodes := s.nodes.set id nx } else s
+    match insertNode m rf s1 id nx with
+    | .error e => .error e
+    | .ok (s2, nx') =>
+      .ok (if rf then s2 else { s2 with nodes := s2.nodes.set id nx' })
+
 /-- `HNSWIndex.Add` for an explicit non-zero id (`vector.ID() != 0`) and the level
-    that `randomLevel` drew.  `pick` is only used when `id` is still soft-deleted:
-    the code then runs `flushLocked` first (fix e29df80) and `pick ∈ flushChoices s`
-    is the entry point that flush elects. -/
+    that `randomLevel` drew.  `pick` is only used when `addFlushes s id`: it is the entry
+    point that this internal flush elects (`pick ∈ flushChoices s`). -/
 def addWith (rf : Bool) (s : State V) (id : Id) (v : V) (level : Nat) (pick : Id) :
     Except Fault (State V × Option Err) :=
   if m.dimOf v ≠ s.dim then .ok (s, some .dim) else
   match m.pre v with
   | none => .ok (s, some .zero)
   | some v' =>
+    -- fix e29df80: re-adding an id that is still soft-deleted purges the tombstones first
     let s := if id != 0 && s.deleted.contains id then flushTo s pick else s
-    let s := if (level : Int) > s.maxLevel then { s with maxLevel := level } else s
-    let nx := Node.new v' level
-    if s.entry == 0 && s.nodes.count == 0 then
-      .ok ({ s with entry := id, nodes := s.nodes.set id nx }, none)
-    else
-      let s1 := if rf then { s with nodes := s.nodes.set id nx } else s
-      match insertNode m rf s1 id nx with
-      | .error e => .error e
-      | .ok (s2, nx') =>
-        let s3 := if rf then s2 else { s2 with nodes := s2.nodes.set id nx' }
-        .ok (s3, none)
+    -- fix f98dc7f: a soft-deleted entry point cannot anchor new links: flush first
+    let s := if s.deleted.contains s.entry then flushTo s pick else s
+    match addLinked m rf s id v' level with
+    | .error e => .error e
+    | .ok s' => .ok (s', none)
 
 /-- the modelled code -/
 def add (s : State V) (id : Id) (v : V) (level : Nat) (pick : Id := s.entry) :
@@ -479,45 +555,35 @@ def nbrsAt (s : State V) (layer : Nat) (i : Id) : List Id :=
   | some n => (n.edges[layer]?).getD []
   | none => []
 
-/-- what `searchLayer` can walk along on `layer` -/
-def liveSuccAt (s : State V) (layer : Nat) (i : Id) : List Id :=
-  if isDeleted s i then [] else (nbrsAt s layer i).filter fun t => !isDeleted s t
-
 /-- resident and not soft-deleted -/
 def liveB (s : State V) (i : Id) : Bool := s.nodes.contains i && !isDeleted s i
 
-/-- layer 0 is the complete digraph on the live vertices, and its edges resolve -/
+/-- layer 0 is the complete digraph on the live vertices, the entry point (live or
+    soft-deleted) has an edge to every other live vertex, and layer-0 edges resolve -/
 def complete0B (s : State V) : Bool :=
-  (liveIds s).all fun u =>
-    ((liveIds s).all fun v => u == v || (nbrsAt s 0 u).contains v) &&
-    (nbrsAt s 0 u).all fun w => s.nodes.contains w
+  ((liveIds s).all fun u => (liveIds s).all fun v => u == v || (nbrsAt s 0 u).contains v) &&
+  (s.nodes.keys.all fun u => (nbrsAt s 0 u).all fun w => s.nodes.contains w) &&
+  ((liveIds s).all fun v => v == s.entry || (nbrsAt s 0 s.entry).contains v)
 
-/-- what the search can walk along on the bottom layer: the layer-0 neighbours of a
-    vertex that is not soft-deleted, without the soft-deleted ones -/
-def liveSucc (s : State V) (i : Id) : List Id :=
-  if isDeleted s i then [] else
-  match s.nodes.get? i with
-  | some n => (n.edges.headD []).filter fun t => !isDeleted s t
-  | none => []
-
-/-- clause 3 on one state: every live vertex is reachable from the (live) entry point
-    through live vertices of layer 0 -/
+/-- clause 3 on one state: every live vertex is reachable from the entry point through
+    the bottom-layer graph (edges of stored vertices, soft-deleted ones included: since fix
+    f6a780e the search walks through them) -/
 def Reachable (s : State V) : Prop :=
-  ∀ i ∈ liveIds s, isDeleted s s.entry = false ∧ Reach (liveSucc s) s.entry i
+  ∀ i ∈ liveIds s, Reach (nbrsAt s 0) s.entry i
 
 /-- histories; `flush e` carries the entry point that Go's map iteration elected -/
 inductive Op (V : Type)
-  | add (id : Id) (v : V) (level : Nat)
+  | add (id : Id) (v : V) (level : Nat) (pick : Id := 0)
   | remove (id : Id)
   | flush (pick : Id)
 
 def Op.toFlat : Op V → Flat.Op V
-  | .add id v _ => .add id v
+  | .add id v _ _ => .add id v
   | .remove id => .remove id
   | .flush _ => .flush
 
 def step (s : State V) : Op V → Except Fault (State V)
-  | .add id v l => match add m s id v l with | .ok (s', _) => .ok s' | .error e => .error e
+  | .add id v l p => match add m s id v l p with | .ok (s', _) => .ok s' | .error e => .error e
   | .remove id => .ok (remove s id).1
   | .flush e => .ok (flushTo s e)
 
@@ -542,15 +608,13 @@ def along (p : State V → Op V → Bool) (fin : State V → Bool) (s : State V)
   | [] => fin s
   | op :: rest => p s op && match step m s op with | .ok s' => along p fin s' rest | .error _ => true
 
-/-- every `flush` elects an allowed entry point -/
+/-- every `flush` — explicit, or run inside an `add` — elects an allowed entry point -/
 def validPicks : State V → List (Op V) → Bool :=
-  along m (fun s op => match op with | .flush e => (flushChoices s).contains e | _ => true) (fun _ => true)
-
-/-- EntryLive: the entry point is not soft-deleted at any add, nor at the end (when
-    the searches / the reachability check happen).  Its negation is the trigger of D2. -/
-def entryLive : State V → List (Op V) → Bool :=
-  along m (fun s op => match op with | .add .. => !isDeleted s s.entry | _ => true)
-    (fun s => !isDeleted s s.entry)
+  along m (fun s op => match op with
+      | .flush e => (flushChoices s).contains e
+      | .add id _ _ p => !addFlushes s id || (flushChoices s).contains p
+      | _ => true)
+    (fun _ => true)
 
 /-- the index never holds more than `bound` vertices (soft-deleted ones included) -/
 def residentsLe (bound : Nat) : State V → List (Op V) → Bool :=
